@@ -152,6 +152,13 @@ func cmdCheck(args []string) int {
 		cfg.incTimeoutMs = 20000
 		cfg.raceTimeoutS = 300
 	}
+	if v := os.Getenv("RVC_RACE_TIMEOUT"); v != "" {
+		// used by the must-fail corpus: on a seeded change many obligations fail, and waiting the full
+		// limit for each of them only delays the verdict "detected"
+		if n, err := strconv.Atoi(v); err == nil && n > 0 {
+			cfg.raceTimeoutS = n
+		}
+	}
 	res := runProperty(prop, ip, repo, only, cfg)
 	if tier == "thorough" && only == "" && repo == repoDirDefault() && os.Getenv("RVC_NO_SEEDS") == "" {
 		// the must-fail corpus for this property (each run checks a scratch worktree, never /repo)
